@@ -31,6 +31,9 @@ from torch.nn import functional as F
 
 from mc.core import Acc, exc_text, guarded, h64, tensor_bytes
 
+# every shard runs in a freshly forked process: load the heavy modules once in the parent, not once per shard
+import deepali.data  # noqa: F401,E402
+
 PROPERTY = "C19"
 RULE = (
     "every program (sequence of torch operations, tuple results continued from their first / second / last "
